@@ -30,7 +30,7 @@ package klog
 
 //@ func NewDurationWithFormat
 //@ requires fits(amountHours) && fits(amountMinutes) && fits(amountHours*60) && fits(amountHours*60 + amountMinutes)
-//@ ensures typeis(result, *duration) && fresh(result) && result.(*duration).minutes == amountHours*60 + amountMinutes && result.(*duration).format == format
+//@ ensures typeis(result, *duration) && fresh(result) && result.(*duration).minutes == amountHours*60 + amountMinutes && result.(*duration).format == format && fits(result.(*duration).minutes)
 
 //@ func NewDuration
 //@ requires fits(amountHours) && fits(amountMinutes) && fits(amountHours*60) && fits(amountHours*60 + amountMinutes)
@@ -58,7 +58,7 @@ package klog
 //@ let sign = ite(sg == "-", -1, 1)
 //@ let valid = m && (hasH || hasM) && implies(hasH, M < 60)
 //@ ensures (result1 == nil) == valid
-//@ ensures implies(valid, typeis(result0, *duration) && result0.(*duration).minutes == sign*(60*H + M))
+//@ ensures implies(valid, typeis(result0, *duration) && result0.(*duration).minutes == sign*(60*H + M) && fits(result0.(*duration).minutes))
 //@ ensures implies(valid, result0.(*duration).format.ForcePlus == (sg == "+"))
 //@ ensures implies(valid, result0.(*duration).format.ZeroSign == ite(H == 0 && M == 0 && len(sg) > 0, sign, 0))
 //@ ensures implies(!valid, isnil(result0))
